@@ -18,7 +18,12 @@ SOURCES = ['SoupVerif/Properties/C17.lean', 'SoupVerif/Lemmas/StateLawsShape.lea
 RULE = ('HTML documents made of arbitrarily nested forms, fieldsets with 0-2 legends (controls inside the first / second legend), '
         'radio groups inside / outside forms with name collisions, option/optgroup, every input type, disabled / readonly / '
         'required / placeholder / contenteditable / dir (incl. auto with LTR / RTL / neutral text, bdi, textarea, tel) and '
-        'iframes with inner documents; built through the API as html / html5 and serialised and re-parsed by html.parser, lxml '
+        'iframes with inner documents; forms / containers holding an iframe at the boundary positions of the flat control walks '
+        '(iframe followed by an element / text / white space / a comment, or last child of 0-3 nested wrappers, or last node of the '
+        'form / document; embedded document with or without html / body, ending in an empty element, a 1-4 deep chain of last '
+        'children, text, a comment or another iframe, holding its own forms, submit controls and same-named radios) with the '
+        "form's own first submit control and radio group before / after the iframe (a form of an embedded document does not count "
+        'as nested in the form that holds the iframe); built through the API as html / html5 and serialised and re-parsed by html.parser, lxml '
         'and html5lib. Checked on PY: the partition laws (enabled/disabled, required/optional, read-write/read-only, '
         'in-range/out-of-range, link = any-link, checked ⊆ default, dir ltr xor rtl for rooted HTML elements), the '
         'first-submit and radio-group definitions against an independent reading (:indeterminate = its definition, with "radio" '
@@ -116,6 +121,8 @@ def laws(soup, state, info):
             if is_html(d) and nm(d) in ('input', 'button') and kw(d.get('type', '')) == 'submit':
                 want_default.add(id(d))
                 break
+    if info.get('nested_forms'):
+        state['nested_skipped'] = state.get('nested_skipped', 0) + 1
     if S[':default'] != want_default and not info.get('nested_forms'):
         bad.append(':default ≠ :checked ∪ first submit button of each form')
     # :indeterminate = checkboxes carrying `indeterminate`, `progress` without `value`, and UNCHECKED radio buttons that have no
@@ -154,7 +161,12 @@ def laws(soup, state, info):
     state['radios_other_case'] = state.get('radios_other_case', 0) + sum(
         1 for e in els if nm(e) == 'input' and attr(e, 'type') is not None and attr(e, 'type') != 'radio' and attr(e, 'type').lower() == 'radio'
         and attr(e, 'checked') is not None and attr(e, 'name'))
-    if S[':indeterminate'] != want_ind:
+    # Not decided here: a form-less radio that is a DIRECT child of an iframe (an embedded document whose root element would be the
+    # radio itself; DESIGN.md lists it among the observations outside the quantifier: the library gives it no group at all)
+    rootless = {id(e) for e in radios if form_of(e) is None and e.parent is not None and not isinstance(e.parent, bs4.BeautifulSoup)
+                and nm(e.parent) == 'iframe'}
+    state['radios_directly_under_iframe_not_judged'] = state.get('radios_directly_under_iframe_not_judged', 0) + len(rootless)
+    if S[':indeterminate'] - rootless != want_ind - rootless:
         pos = {id(e): n for n, e in enumerate(els)}
         bad.append(':indeterminate ≠ its definition (unchecked radios whose group has no checked member, …): got '
                    f'{sorted(pos[i] for i in S[":indeterminate"])}, want {sorted(pos[i] for i in want_ind)}')
@@ -164,9 +176,14 @@ def laws(soup, state, info):
 
 
 def has_nested_forms(soup):
+    """A form inside a form of the SAME document (there the property's "first submit button of each form" is left undecided).
+    A form of an embedded document is not nested in the form that holds the iframe: it belongs to another document."""
     for f in soup.find_all('form'):
-        if f.find('form') is not None:
-            return True
+        for p in f.parents:
+            if isinstance(p, bs4.BeautifulSoup) or p.name.lower() == 'iframe':
+                break
+            if p.name.lower() == 'form':
+                return True
     return False
 
 
@@ -243,6 +260,141 @@ def inject(nodes, extra):
     return out, done
 
 
+# ---------------------------------------------------------------------------------------------
+# embedded documents at the boundary positions of the flat walks (first submit button of a form, radio group of a form / document)
+# ---------------------------------------------------------------------------------------------
+WRAPPERS = ['div', 'p', 'span', 'fieldset', 'label', 'section']
+
+
+def frame_form(rng, st=None):
+    """A form (or, for document-owned radio groups, a plain container) that holds an iframe with an embedded document, built so
+    that the place where a walk over the form's own controls has to RESUME after the iframe varies: the iframe has a next sibling
+    (element / text / white space / comment), or is the last child of 1-3 nested wrappers (the walk resumes at a sibling of an
+    ancestor), or is the last node of the form / of the document (the walk ends).  The embedded document ends in an empty
+    element, an element with content (a chain of last children 1-4 deep), text, white space or a comment; it is written with and
+    without html / body, and may hold its own form, another iframe, submit controls and radios named like the outer group --
+    all of them invisible to the outer form: its first submit button and its radio group come before / after the iframe."""
+    g = rng.choice(['g1', 'g2', 'g5'])
+
+    def submit():
+        name = rng.choice(['input', 'button'])
+        return ('e', name, None, None, [('type', rng.choice(['submit', 'submit', 'Submit']))], [('t', 'ok')] if name == 'button' and rng.random() < 0.7 else [])
+
+    def radio(checked, name=None):
+        return ('e', 'input', None, None, [('type', 'radio'), ('name', name or g)] + ([('checked', '')] if checked else []), [])
+
+    def hot(depth=0):
+        """What the outer scans could mistake for one of the form's own controls."""
+        x = rng.random()
+        if x < 0.45:
+            return submit()
+        if x < 0.7:
+            return radio(rng.random() < 0.7)
+        if x < 0.85 and depth < 2:
+            return ('e', 'form', None, None, [], [hot(depth + 1) for _ in range(rng.randint(1, 2))])
+        return ('e', rng.choice(WRAPPERS), None, None, [], [hot(depth + 1)] if depth < 2 else [])
+
+    def chain(depth):
+        """An element whose chain of last children is `depth` deep and ends in a control (or, sometimes, in a string)."""
+        node = hot(2) if rng.random() < 0.8 else ('t', rng.choice(['x', ' ', '\n']))
+        for _ in range(depth):
+            pre = [hot() if rng.random() < 0.6 else gen.gen_control(rng) for _ in range(rng.choice([0, 0, 1, 2]))]
+            node = ('e', rng.choice(WRAPPERS + ['form']), None, None, [], pre + [node])
+        return node
+
+    def embedded(level=0):
+        kids = [hot() if rng.random() < 0.6 else gen.gen_control(rng) for _ in range(rng.choice([0, 0, 1, 2]))]
+        tail = rng.choice(['deep', 'deep', 'deep', 'flat', 'text', 'space', 'comment', 'none', 'iframe'])
+        if tail == 'deep':
+            kids.append(chain(rng.randint(1, 3)))
+        elif tail == 'flat':
+            kids.append(hot(2))
+        elif tail == 'text':
+            kids += [hot(), ('t', 'x')]
+        elif tail == 'space':
+            kids += [chain(rng.randint(0, 2)), ('t', rng.choice([' ', '\n  ']))]
+        elif tail == 'comment':
+            kids += [chain(rng.randint(0, 2)), ('c', 'x')]
+        elif tail == 'iframe' and level < 1:
+            kids += [hot(), frame(level + 1)]
+        if st is not None:
+            st['frame_tail_' + tail] = st.get('frame_tail_' + tail, 0) + 1
+        y = rng.random()
+        if y < 0.4:
+            return [('e', 'html', None, None, [], [('e', 'body', None, None, [], kids)])]
+        if y < 0.5:
+            return [('e', 'html', None, None, [], [('e', 'head', None, None, [], []), ('e', 'body', None, None, [], kids)])]
+        if y < 0.6:
+            return [('e', 'body', None, None, [], kids)]
+        return kids
+
+    def frame(level=0):
+        return ('e', 'iframe', None, None, [], embedded(level))
+
+    def after():
+        """What follows the iframe inside its parent."""
+        x = rng.random()
+        if x < 0.55:
+            return []
+        return [rng.choice([('t', ' '), ('t', '\n'), ('t', 'x'), ('c', 'x'), ('e', 'span', None, None, [], []), submit(), radio(False)])] + (
+            [frame()] if rng.random() < 0.15 else [])
+
+    def own(p_submit):
+        out = []
+        for _ in range(rng.choice([0, 1, 1, 2, 3])):
+            x = rng.random()
+            out.append(submit() if x < p_submit else radio(rng.random() < 0.35) if x < p_submit + 0.35 else radio(rng.random() < 0.5, 'g9')
+                       if x < p_submit + 0.45 else gen.gen_control(rng))
+        return out
+
+    node = frame()
+    tail = after()
+    depth = rng.choice([0, 1, 1, 1, 2, 2, 3])
+    for _ in range(depth):
+        node = ('e', rng.choice(WRAPPERS), None, None, [], own(0.1) + [node] + tail)
+        tail = [] if rng.random() < 0.7 else after()
+    # the form's own controls: mostly no submit control before the iframe (then the first one comes after it)
+    kids = own(0.12) + [node] + tail + own(0.6)
+    if st is not None:
+        st['frame_forms'] = st.get('frame_forms', 0) + 1
+        if not tail:
+            st['frame_last_child_depth_%d' % depth] = st.get('frame_last_child_depth_%d' % depth, 0) + 1
+    node = ('e', 'form' if rng.random() < 0.8 else 'div', None, None, [], kids)
+    # forms nested in a form of the same document are left to the general generator (what :default means there is undecided)
+    return node if rng.random() < 0.1 else unnest_forms([node])[0]
+
+
+def unnest_forms(nodes, in_form=False):
+    """Turn every form that lies inside a form of the SAME document into a div."""
+    out = []
+    for n in nodes:
+        if n[0] == 'e':
+            _, name, prefix, ns, attrs, kids = n
+            inner = False if name == 'iframe' else (in_form or name == 'form')
+            n = ('e', 'div' if name == 'form' and in_form else name, prefix, ns, attrs, unnest_forms(kids, inner))
+        out.append(n)
+    return out
+
+
+def frame_doc(rng, st=None):
+    """A document whose body holds 1-3 frame forms (side by side: never one inside the other) and loose controls between them."""
+    kids = []
+    for _ in range(rng.choice([1, 1, 2, 3])):
+        if rng.random() < 0.3:
+            kids.append(gen.gen_control(rng))
+        kids.append(frame_form(rng, st))
+    if rng.random() < 0.4:
+        kids.append(rng.choice([('e', 'input', None, None, [('type', 'submit')], []),
+                                ('e', 'input', None, None, [('type', 'radio'), ('name', 'g1'), ('checked', '')], []), ('t', ' ')]))
+    kind = rng.choice(['html', 'html', 'html5'])
+    x = rng.random()
+    if x < 0.8:
+        return kind, [('e', 'html', None, None, [], [('e', 'head', None, None, [], []), ('e', 'body', None, None, [], kids)])]
+    if x < 0.9:
+        return kind, [('e', 'html', None, None, [], kids)]
+    return kind, [k for k in kids if k[0] == 'e' and k[5]][-1:]       # a lone form / container as the root element
+
+
 def xhtml_markup(rng, top):
     if not (top and top[0][0] == 'e' and top[0][1] == 'html'):
         top = [('e', 'html', None, None, [], [('e', 'head', None, None, [], []), ('e', 'body', None, None, [], top)])]
@@ -256,12 +408,16 @@ def make_cases_factory(state):
     def make_cases(rng, n):
         cases = []
         while len(cases) < n:
-            kind, top = gen.gen_state_doc(rng)
+            framed = rng.random() < 0.3
+            if framed:
+                kind, top = frame_doc(rng, state)
+            else:
+                kind, top = gen.gen_state_doc(rng)
             if kind in ('xml',):
                 kind = 'html'
             if kind == 'xhtml':
                 kind = 'html5'
-            if rng.random() < 0.4:
+            if not framed and rng.random() < 0.4:
                 top = foreignize(rng, top)
                 if rng.random() < 0.6:
                     top, _ = inject(top, foreign_form(rng))
@@ -307,7 +463,13 @@ def run(chk):
                              'xhtml_parsed_as_xml_documents': state.get('xhtml_as_xml', 0),
                              'trees_with_controls_wrapped_in_svg_or_math': state.get('foreignized', 0),
                              'foreign_namespace_submit_controls_and_checked_inputs_seen': state.get('foreign_controls', 0),
-                             'checked_named_inputs_whose_type_is_radio_in_other_letter_case': state.get('radios_other_case', 0)})
+                             'checked_named_inputs_whose_type_is_radio_in_other_letter_case': state.get('radios_other_case', 0),
+                             'forms_holding_an_iframe_at_a_walk_boundary': state.get('frame_forms', 0),
+                             'iframe_is_last_child_by_wrapper_depth': {k[len('frame_last_child_depth_'):]: v for k, v in sorted(state.items())
+                                                                       if k.startswith('frame_last_child_depth_')},
+                             'embedded_document_ends_in': {k[len('frame_tail_'):]: v for k, v in sorted(state.items()) if k.startswith('frame_tail_')},
+                             'default_law_documents_skipped_for_same_document_nested_forms': state.get('nested_skipped', 0),
+                             'radios_directly_under_iframe_not_judged': state.get('radios_directly_under_iframe_not_judged', 0)})
         for i, b in enumerate(state['bad'][:5]):
             chk.violation(f'law{i}', {'what': 'state pseudo-class law violated on the real code', **b}, concrete=True)
         return orig(**kw)
